@@ -475,8 +475,10 @@ func (*Scheduler) runningCount(g *ExecutionGraph) int {
 
 func (*Scheduler) isFinished(g *ExecutionGraph) bool {
 	for _, node := range g.Nodes() {
-		if node.State().Status == NodeStatusRunning ||
-			node.State().Status == NodeStatusNone {
+		// Read the state once: a step that is being launched changes from
+		// "not started" to "running" between two reads.
+		status := node.State().Status
+		if status == NodeStatusRunning || status == NodeStatusNone {
 			return false
 		}
 	}
